@@ -243,29 +243,36 @@ func (c *ctx) checkArchive(b *beh, data []byte, expect []view, step string, supp
 	defer os.Remove(tmp)
 	fh, _ := os.Open(tmp)
 	defer fh.Close()
-	pr, pw := io.Pipe()
-	go func() { pw.CloseWithError(zipslicer.ZipToTar(fh, pw)) }()
-	var sv2 []view
-	err = protect(func() error {
-		d2, e := zipslicer.ReadZipTar(pr)
-		if e != nil {
+	// the stream arrives in segments of any size (pipe writes, network records): whole, and cut at 1, 7, 13, 64 and 1460 bytes
+	for _, seg := range []int{0, 1, 7, 13, 64, 1460} {
+		pr, pw := io.Pipe()
+		go func() { pw.CloseWithError(zipslicer.ZipToTar(fh, pw)) }()
+		var src io.Reader = pr
+		if seg > 0 {
+			src = &segReader{r: pr, n: seg}
+		}
+		var sv2 []view
+		err = protect(func() error {
+			d2, e := zipslicer.ReadZipTar(src)
+			if e != nil {
+				return e
+			}
+			sv2, e = slicerView(d2)
 			return e
+		})
+		io.Copy(io.Discard, pr)
+		if err != nil {
+			if supported {
+				c.fail(b, "read-error", step, "zipslicer stream mode (reads of %d bytes): %v", seg, err)
+			} else {
+				c.r.Count("refused_documented_unsupported", 1)
+			}
+			return false
 		}
-		sv2, e = slicerView(d2)
-		return e
-	})
-	io.Copy(io.Discard, pr)
-	if err != nil {
-		if supported {
-			c.fail(b, "read-error", step, "zipslicer stream mode: %v", err)
-		} else {
-			c.r.Count("refused_documented_unsupported", 1)
+		if diff := sameViews(sv2, std); diff != "" {
+			c.fail(b, "disagree-stream", step, "(reads of %d bytes) %s", seg, diff)
+			return false
 		}
-		return false
-	}
-	if diff := sameViews(sv2, std); diff != "" {
-		c.fail(b, "disagree-stream", step, "%s", diff)
-		return false
 	}
 	// re-serialising the unmodified directory reproduces the original bytes
 	var cdb, eodb []byte
@@ -485,4 +492,17 @@ func Replay(path string, shard, nshards int) {
 	}
 	r.Extra["behaviours_mine"] = mine
 	r.Emit()
+}
+
+// segReader hands out at most n bytes per Read
+type segReader struct {
+	r io.Reader
+	n int
+}
+
+func (s *segReader) Read(p []byte) (int, error) {
+	if len(p) > s.n {
+		p = p[:s.n]
+	}
+	return s.r.Read(p)
 }
